@@ -1483,6 +1483,18 @@ func (ctx *RenderContext) getAttribute(obj interface{}, attr string) (interface{
 	return nil, nil
 }
 
+// stringerText is s.String(). A String method that panics (typically one promoted from an
+// embedded interface or pointer that is nil) prints the way fmt prints such a value
+// instead of unwinding through the render
+func stringerText(s fmt.Stringer) (text string) {
+	defer func() {
+		if r := recover(); r != nil {
+			text = fmt.Sprint(s)
+		}
+	}()
+	return s.String()
+}
+
 // safeCallMethod calls a method of a context value. A panic inside it (for instance
 // a method promoted from an embedded pointer or interface that is nil) becomes an
 // error of the render instead of unwinding through it, as text/template does
@@ -2007,7 +2019,7 @@ func (ctx *RenderContext) ToString(val interface{}) string {
 			// a typed nil pointer whose String method has a value receiver cannot be called
 			return ""
 		}
-		return v.String()
+		return stringerText(v)
 	}
 
 	// A pointer prints as what it points to, never as an address
